@@ -198,4 +198,26 @@ CHECKS = {
                 '(the posterior now delegates the hierarchical bookkeeping to the population model) precedes this check.',
         'technique': 'Coq proof (is_derive chain rule, div/mod bijection) + CoqInterval-certified correspondence',
     },
+    'C09': {
+        'text': 'Machine-checked proof (Properties/C09.v): for every declaration order of states and literal constants, '
+                'np.argsort(np.argsort(names)) sends a state\'s declaration position to its alphabetical rank '
+                '(argsort of a permutation is its inverse; sorted permutations are unique); after the calls simulate() '
+                'makes, every published name — state or constant — is bound inside the solver to the vector entry at '
+                'its published position; exactly the selected outputs are logged, in order, at the requested times; '
+                'with the solver as an oracle simulate() is the initial-value problem with entry i assigned to '
+                'published name i; the sensitivity request lists, in published order, the targets (init(x) / constant) of '
+                'all, of the selected, or — for reduced models — of the free parameters. Library equations: the '
+                'right-hand sides myokit reads from the four shipped XML files are translated to Coq on every run and '
+                'proved equal to the documented equations (gen/C09_lib.v, `field`). Tied to /repo on every run: real '
+                'SBMLModel / PKPDModel / ReducedMechanisticModel objects on library and random SBML files, driven '
+                'through the recording solver substitute; published names, every solver call of a simulate() and the '
+                'sensitivity request compared exactly (vm_compute); returned arrays compared with an independent solve '
+                'binding each name to its entry, sensitivity columns with derivatives in published order.',
+        'note': 'Trusted: Coq kernel, stdlib; the structural theorems are axiom-free, the library theorems use ' + STD_AXIOMS +
+                '; hand-written model; myokit\'s SBML importer and expression trees; harness/simsub.py stands in for '
+                'the absent native solver (self-tested against analytic solutions at start-up), so the numerical '
+                'solution itself is an oracle.',
+        'technique': 'Coq proof (permutation inverse, assignment by induction over call lists; field for the library '
+                     'equations regenerated from the XML) + exact vm_compute correspondence of recorded solver calls',
+    },
 }
